@@ -162,3 +162,142 @@ Proof.
   destruct (Qlt_le_dec e1 e0) as [L|L]; [exact L|].
   apply Qle_bool_iff in L. congruence.
 Qed.
+
+(* ================================================================ wave 2: the remaining loops *)
+(* ---------------------------------------------------------------- counters with a cap *)
+Lemma count_until_reaches p : forall m n, (n <= m)%nat -> p m = true ->
+  exists n', count_until (S (m - n)) p n = Some n' /\ (n <= n' <= m)%nat /\ p n' = true.
+Proof.
+  intros m n Hnm Hm. remember (m - n)%nat as gap eqn:G. revert n Hnm G.
+  induction gap as [|gap IH]; intros n Hnm G.
+  - assert (n = m) by lia. subst n. exists m. cbn [count_until]. rewrite Hm. repeat split; auto.
+  - cbn [count_until]. destruct (p n) eqn:E.
+    + exists n. repeat split; auto; lia.
+    + destruct (IH (S n)) as (n' & R & B & P); [lia|lia|]. exists n'. repeat split; auto; lia.
+Qed.
+
+Lemma count_until_more_fuel p : forall fuel n r, count_until fuel p n = Some r ->
+  forall extra, count_until (fuel + extra) p n = Some r.
+Proof.
+  induction fuel as [|fuel IH]; intros n r E extra; cbn [count_until] in *; [discriminate|].
+  cbn [Nat.add count_until]. destruct (p n); [exact E|]. apply IH. exact E.
+Qed.
+
+(* the perplexity bisection of t-SNE makes at most 200 passes whatever the data (NaN included) *)
+Theorem perplexity_search_terminates found_at :
+  exists it, perplexity_search 201 found_at = Some it /\ (it <= 200)%nat.
+Proof.
+  unfold perplexity_search.
+  destruct (count_until_reaches (fun i => found_at i || (200 <=? i)%nat) 200 0 ltac:(lia)) as (n' & R & B & _).
+  - apply orb_true_iff. right. reflexivity.
+  - exists n'. split; [exact R|lia].
+Qed.
+
+(* without the cap there are oracles (an entropy that is NaN: the test never succeeds) that need any fuel *)
+Theorem perplexity_search_uncapped_refuted : forall fuel n,
+  count_until fuel (fun _ => false) n = None.
+Proof. induction fuel as [|fuel IH]; intros n; cbn; [reflexivity|apply IH]. Qed.
+
+(* the EM loop of factor analysis makes at most max_iteration passes *)
+Theorem fa_loop_terminates max_iter conv_at :
+  exists it, fa_loop (S max_iter) max_iter conv_at = Some it /\ (it <= max_iter)%nat.
+Proof.
+  unfold fa_loop.
+  destruct (count_until_reaches (fun i => (max_iter <=? i)%nat || ((1 <? i)%nat && conv_at i)) max_iter 0
+              ltac:(lia)) as (n' & R & B & _).
+  - apply orb_true_iff. left. apply Nat.leb_refl.
+  - rewrite Nat.sub_0_r in R. exists n'. split; [exact R|lia].
+Qed.
+
+(* ---------------------------------------------------------------- quadtree depth on distinct points *)
+Open Scope Q_scope.
+Theorem qt_depth_terminates (w delta : Q) : 0 < delta ->
+  exists m t, qt_depth (S m) w delta = Some t /\ (t <= m)%nat.
+Proof.
+  intros Hd. destruct (geometric_reaches delta 2 (2 * w + 1) Hd ltac:(lra)) as (m & Hm).
+  exists m. unfold qt_depth.
+  destruct (count_until_reaches (fun t => negb (Qle_bool (delta * 2 ^ Z.of_nat t) (2 * w))) m 0%nat
+              ltac:(lia)) as (n' & R & B & _).
+  - apply negb_true_iff. destruct (Qle_bool (delta * 2 ^ Z.of_nat m) (2 * w)) eqn:E; [|reflexivity].
+    apply Qle_bool_iff in E. lra.
+  - rewrite Nat.sub_0_r in R. exists n'. split; [exact R|lia].
+Qed.
+
+(* coincident points (delta = 0) would subdivide for ever: this is what the count[] slots of F24 absorb *)
+Theorem qt_depth_coincident_refuted (w : Q) : 0 <= w -> forall fuel, qt_depth fuel w 0 = None.
+Proof.
+  intros Hw fuel. unfold qt_depth. generalize 0%nat.
+  induction fuel as [|fuel IH]; intros n; cbn [count_until]; [reflexivity|].
+  assert (E : Qle_bool (0 * 2 ^ Z.of_nat n) (2 * w) = true) by (apply Qle_bool_iff; lra).
+  rewrite E. cbn [negb]. apply IH.
+Qed.
+Close Scope Q_scope.
+
+(* ---------------------------------------------------------------- loops with a decreasing measure *)
+Theorem iter_fuel_measure {St : Type} (step : St -> option St) (g : St -> Z) :
+  (forall s s', step s = Some s' -> 0 <= g s' < g s) ->
+  forall fuel s n, 0 <= g s -> (Z.to_nat (g s) < fuel)%nat ->
+  exists s' n', iter_fuel fuel step s n = Some (s', n') /\ step s' = None /\
+                (n' <= n + Z.to_nat (g s))%nat.
+Proof.
+  intros H. induction fuel as [|fuel IH]; intros s n Hg Hf; [lia|].
+  cbn [iter_fuel]. destruct (step s) as [s1|] eqn:E.
+  - destruct (H s s1 E) as [H0 H1].
+    destruct (IH s1 (S n) H0 ltac:(lia)) as (s' & n' & R & N & B).
+    exists s', n'. repeat split; auto. lia.
+  - exists s, n. repeat split; auto. lia.
+Qed.
+
+(* cover tree, k_nearest_neighbor: current_scale rises by one per descent and max_scale never exceeds the
+   deepest scale of the tree, so the descent ends after at most deepest - current_scale + 2 rounds *)
+Theorem ct_descend_terminates grow deepest :
+  (forall cs ms, ms <= deepest -> grow cs ms <= deepest) ->
+  forall cs ms, ms <= deepest ->
+  exists st n, iter_fuel (S (Z.to_nat (deepest + 1 - cs))) (ct_descend_step grow) (cs, ms) 0 = Some (st, n) /\
+               (n <= Z.to_nat (deepest + 1 - cs))%nat.
+Proof.
+  intros Hg.
+  assert (G : forall fuel cs ms n, ms <= deepest -> (Z.to_nat (deepest + 1 - cs) < fuel)%nat ->
+              exists st n', iter_fuel fuel (ct_descend_step grow) (cs, ms) n = Some (st, n') /\
+                            (n' <= n + Z.to_nat (deepest + 1 - cs))%nat).
+  { induction fuel as [|fuel IH]; intros cs ms n Hm Hf; [lia|].
+    cbn [iter_fuel ct_descend_step]. destruct (ms <? cs) eqn:E.
+    - exists (cs, ms), n. split; [reflexivity|lia].
+    - apply Z.ltb_ge in E.
+      destruct (IH (cs + 1) (grow cs ms) (S n) (Hg cs ms Hm) ltac:(lia)) as (st & n' & R & B).
+      exists st, n'. split; [exact R|lia]. }
+  intros cs ms Hm. destruct (G (S (Z.to_nat (deepest + 1 - cs))) cs ms 0%nat Hm ltac:(lia)) as (st & n & R & B).
+  exists st, n. split; [exact R|lia].
+Qed.
+
+(* cover tree, batch_insert: next_scale = min(max_scale - 1, get_scale(max_dist)) strictly decreases; with
+   the scales of the remaining distances between lo (get_scale of the smallest non-zero distance) and the
+   current max_scale (split keeps the points within base^max_scale) the chain of self-children has at
+   most max - lo + 2 nodes *)
+Theorem bi_chain_terminates g lo :
+  (forall m s, g m = Some s -> lo <= s <= m) ->
+  forall fuel top max, (Z.to_nat (max - lo + 1) < fuel)%nat ->
+  exists l, bi_chain fuel top max g = Some l /\ (length l <= Z.to_nat (max - lo + 1) + 1)%nat.
+Proof.
+  intros Hlo. induction fuel as [|fuel IH]; intros top max Hf; [lia|].
+  cbn [bi_chain]. destruct (g max) as [s|] eqn:E.
+  - specialize (Hlo max s E).
+    destruct (IH top (Z.min (max - 1) s) ltac:(lia)) as (l & R & B).
+    rewrite R. exists ((top - max) :: l). split; [reflexivity|]. cbn [length]. lia.
+  - exists (cons (Z.max 100 (top - max)) nil). split; [reflexivity|]. cbn [length]. lia.
+Qed.
+
+(* ManifoldSculpting hill climbing (after F20): every sweep that continues strictly lowers old_error,
+   a non-negative finite double; with e = the ordinal of that double the loop makes at most e + 1 sweeps.
+   (NaN errors end the loop at once: c01_ms_adjust_nan_repaired.) *)
+Theorem ms_sweeps_terminate (improve : Z -> option Z) :
+  (forall e e', improve e = Some e' -> 0 <= e' < e) ->
+  forall e, 0 <= e ->
+  exists e' n, iter_fuel (S (Z.to_nat e)) (ms_sweep_step improve) e 0 = Some (e', n) /\
+               improve e' = None /\ (n <= Z.to_nat e)%nat.
+Proof.
+  intros H e He.
+  destruct (iter_fuel_measure (ms_sweep_step improve) (fun x => x) H (S (Z.to_nat e)) e 0%nat He ltac:(lia))
+    as (e' & n & R & N & B).
+  exists e', n. repeat split; auto.
+Qed.
